@@ -226,7 +226,7 @@ def sorter_model(cfgs, num_quick, num_thorough):
     real sorter (hook H2); TraceAlloc judges the bookkeeping, the predicted values are compared."""
     def run(prop, tier, seed, work):
         import json
-        from vlib import OUT, NCPU, ToolError, _java, gv, validate_family, sample_scenario, file_violation
+        from vlib import OUT, NCPU, ToolError, GvCrash, _java, gv, validate_family, sample_scenario, file_violation
         cov = dict(kind="model-derived size sequences", runs=[], states=0, transitions=0, traces_validated_against_impl=0,
                    events_validated=0, evaluations=0, distinct_nontrivial=0, samples=[])
         viol = []
@@ -250,7 +250,17 @@ def sorter_model(cfgs, num_quick, num_thorough):
             with open(os.path.join(d, "s.json"), "w") as f:
                 json.dump(dict(name=name, T=int(consts["T"]), InitCap=int(consts["InitCap"]), Realloc=consts["Realloc"] == "TRUE",
                                MaxChunks=int(consts["MaxChunks"]), seqs=list(seqs.values())), f)
-            info = gv(["sseq", os.path.join(d, "s.json"), "--out", d, "--shards", NCPU])
+            try:
+                info = gv(["sseq", os.path.join(d, "s.json"), "--out", d, "--shards", NCPU])
+            except GvCrash as crash:
+                # the process running the real sorter was killed: memory-safety evidence (C17)
+                from vlib import crashed_scenario, file_crash
+                scn = crashed_scenario(d, "sseq")
+                p = file_crash(prop, scn, crash, dict(module="TraceAlloc", cfg="TraceAlloc.cfg", family="sseq", name=name, input=os.path.join(d, "s.json")))
+                shutil.copy(os.path.join(d, "s.json"), os.path.join(p, "input.json"))
+                viol.append((p, "the process running the real code was killed while replaying size sequences (%s): %s"
+                             % (scn, crash.stderr.strip().splitlines()[0][:200] if crash.stderr.strip() else "signal")))
+                continue
             res = validate_family("TraceAlloc", "TraceAlloc.cfg", d, "sseq", "%s-sseq-%s" % (prop, name))
             for k2, k3 in (("traces_validated_against_impl", "scenarios"), ("events_validated", "events"), ("evaluations", "events"),
                            ("distinct_nontrivial", "distinct"), ("states", "states"), ("transitions", "generated")):
